@@ -231,6 +231,10 @@ func runCheck(prop, tier string) int {
 	c := &sim.CheckCtx{Prop: prop, Tier: tier, Seed: seed, Env: b.env, Par: par, Deadline: time.Now().Add(budget), MaxSims: maxSims,
 		Findings: findings, Out: os.Stdout, ReplayDir: filepath.Join(vd, "replays"), VerifDir: vd,
 		RaceSamples: map[string]int{"quick": 6, "thorough": 150}[tier], RaceBudget: map[string]time.Duration{"quick": 8 * time.Second, "thorough": 4 * time.Minute}[tier]}
+	if tier == "quick" {
+		// the quick tier is a fixed batch: a busy machine makes it slower, not smaller (within four budgets)
+		c.MinSims, c.HardDeadline = maxSims, c.Deadline.Add(3*budget)
+	}
 	def.explore(c)
 	c.RaceLeg()
 	code := c.Finish(time.Since(start))
